@@ -57,7 +57,9 @@ pub fn o_metadata(input: &[u8], p: &P) -> Out {
 		if p.class == "tail" {
 			// tolerated content after Game End inside the raw element is not kept by the writer, so the files differ
 			// there; the metadata element that follows it must still be reproduced byte for byte
-			let wg = domain(&w, "C16");
+			// (the written file is the library's output, not a generated input: if the model cannot parse it, that is
+			// a verdict about the writer, not a machinery failure)
+			let wg = crate::model::refparse(&w).map_err(|m| e("written-file-malformed", format!("the written file is not a well-formed replay: {}", m)))?;
 			if wg.metadata_body != rg.metadata_body {
 				return Err(e("bytes-after-tail", "the written metadata element differs from the original one (replay with tolerated content after Game End)".into()));
 			}
